@@ -131,7 +131,7 @@ def run(ctx):
     st_sk = [n for n in pv.nodes if n.get("k") in ("bin", "call") and n.get("op") == "=" and expr_str(n.child("l") if n.get("k") == "bin" else n.child("obj")) == "skipValue"]
     bfp = BranchFacts(pv, kill="assign")
     r.check(len(st_sk) == 1 and any(p and "hasValue" in a for a, p in (bfp.at_node(st_sk[0]) or frozenset())), "provideValue|skip-value-recorded", "",
-            "the skip decision is not stored in skipValue", pv)
+            "skipValue is not assigned exactly when the delivered input demands a skip (an unguarded assignment lets a healthy input delivered after a failed one clear the skip)", pv)
 
     r = rep.rule("R-NO-RUN-WHEN-SKIPPED", "a command holding a skip value reports that value and neither announces a start nor executes", floor=3)
     ex = prog.fn("ExternalCommand::execute")
